@@ -183,6 +183,13 @@ func c18Record(tier string, seed int64, emit func(interface{})) {
 			return roundtrip(codon.GetCodonTable(id).OptimizeTable(randCoding(rng, m, true)), false)
 		}
 		ta, tb := mk(), mk()
+		designedStops := i == 0 || (tier == "thorough" && i%40 == 0)
+		if designedStops { // each organism ends its genes with another stop codon: every stop codon is rare in one of them
+			id = []int{1, 11}[rng.Intn(2)]
+			every := strings.Join(allCodons, "")
+			ta = roundtrip(codon.GetCodonTable(id).OptimizeTable(every+strings.Repeat("TAG", 10)), false)
+			tb = roundtrip(codon.GetCodonTable(id).OptimizeTable(every+strings.Repeat("TGA", 10)), false)
+		}
 		switch rng.Intn(4) {
 		case 0:
 			tb = shuffleTable(tb, rng.Int63())
@@ -205,8 +212,11 @@ func c18Record(tier string, seed int64, emit func(interface{})) {
 				cut = 10000*wa[c]/tot + rng.Intn(3) - 1
 			}
 		}
+		if designedStops {
+			cut = 2500
+		}
 		eps, fcut := 0, float64(cut)/10000
-		if rng.Intn(4) == 0 { // a hair off the grid value; often at the ends of the interval
+		if !designedStops && rng.Intn(4) == 0 { // a hair off the grid value; often at the ends of the interval
 			eps = 2*rng.Intn(2) - 1
 			if rng.Intn(2) == 0 {
 				cut = 10000 * rng.Intn(2)
@@ -252,6 +262,23 @@ func c18Record(tier string, seed int64, emit func(interface{})) {
 				if oerr == "" {
 					emit(map[string]interface{}{"k": "opt", "id": id, "wa": toSparse(wa), "wb": toSparse(wb), "cut": cut,
 						"comp": toSparse(wab), "protein": string(p), "dna": dna})
+				}
+				// the same with residues the compromise table cannot encode any more (all their codons were cut), the
+				// stop signal among them: either an error, or - if DNA comes back - it is judged like any other gene
+				seen := map[string]bool{}
+				var all []byte
+				for _, cd := range allCodons {
+					if l := letter[cd]; l != "" && !seen[l] {
+						seen[l] = true
+						all = append(all, l[0])
+					}
+				}
+				for _, extra := range all {
+					q := string(letters[:1]) + string(extra)
+					if dna, oerr := safeOptimize(q, ab); oerr == "" {
+						emit(map[string]interface{}{"k": "opt", "id": id, "wa": toSparse(wa), "wb": toSparse(wb), "cut": cut,
+							"comp": toSparse(wab), "protein": q, "dna": dna})
+					}
 				}
 			}
 		}
